@@ -24,7 +24,7 @@ def subclasses_of(w, tables, tdesc):
     return out
 
 
-def gen_fn_scenario(rng: random.Random, static_only=True, simple_sigs=False, bodies=True, kinds=None, nuser=None, is_method=None):
+def gen_fn_scenario(rng: random.Random, static_only=True, simple_sigs=False, bodies=True, kinds=None, nuser=None, is_method=None, type_args=False):
     w = make_world(rng, nuser=nuser)
     if kinds is None:
         kinds = ["cls"] * 6 if static_only else ["cls"] * 6 + ["union", "inter", "exactly", "strict", "hasm", "pred"]
@@ -42,6 +42,30 @@ def gen_fn_scenario(rng: random.Random, static_only=True, simple_sigs=False, bod
         rng.shuffle(anc)
         pool_types = [["cls", c] for c in anc[: rng.randint(2, 6)]] + pool_types[:1]
     ismeth = (rng.random() < 0.2) if is_method is None else is_method
+    type_vals = []
+    if type_args:
+        # C14: type-valued arguments (classes, parametrised generics, nested) and type[...] annotations
+        from world import C_INT, C_LIST, C_OBJECT, C_TYPE
+
+        user = list(range(NBUILTIN, w.n))
+        gens = [NBUILTIN + i for i, u in enumerate(w.desc["user"]) if u["kind"] == "generic"]
+
+        def tval(depth):
+            r = rng.random()
+            if depth <= 0 or r < 0.55:
+                return ["cls", rng.choice(user + [C_INT, C_OBJECT])]
+            if r < 0.85 or not gens:
+                return ["gen", C_LIST, [tval(depth - 1)]]
+            return ["gen", rng.choice(gens), [tval(depth - 1)]]
+
+        type_vals = []
+        for _ in range(rng.randint(3, 7)):
+            t = tval(2)
+            if t not in type_vals:
+                type_vals.append(t)
+        anns = [["gen", C_TYPE, [rng.choice(type_vals + [["cls", C_OBJECT]])]] for _ in range(rng.randint(2, 4))]
+        anns += [["gen", C_TYPE, [["cls", c]]] for c in rng.sample(user, min(2, len(user)))]
+        pool_types = anns + pool_types[: rng.randint(1, 2)]
     defs = []
     # instances of every user class (two of some, so that identity matters)
     args = []
@@ -51,6 +75,8 @@ def gen_fn_scenario(rng: random.Random, static_only=True, simple_sigs=False, bod
             args.append({"vid": len(args), "kind": "inst", "c": c})
     if not args:
         args.append({"vid": 0, "kind": "inst", "c": 0})
+    for t in type_vals:
+        args.append({"vid": len(args), "kind": "type", "t": t})
     for i in range(nmeth):
         if simple_sigs:
             maxpos, reqpos = npos, npos
@@ -97,7 +123,18 @@ def gen_fn_scenario(rng: random.Random, static_only=True, simple_sigs=False, bod
         k = json.dumps(tdesc)
         if k not in fit_cache:
             cs = subclasses_of(w, tables, tdesc)
-            fit_cache[k] = [a["vid"] for a in args if a["c"] in cs]
+            fit_cache[k] = [a["vid"] for a in args if a["kind"] == "inst" and a["c"] in cs]
+            if type_vals:
+                from ovld.mro import subclasscheck
+
+                ann = w.ty(tdesc)
+                for a in args:
+                    if a["kind"] == "type":
+                        try:
+                            if subclasscheck(type[w.ty(a["t"])], ann):
+                                fit_cache[k].append(a["vid"])
+                        except Exception:  # noqa
+                            pass
         return fit_cache[k]
 
     for _ in range(ncalls):
@@ -168,11 +205,24 @@ def to_model(w, sc):
         if a["kind"] == "inst":
             t = ["cls", a["c"]]
             return {"vid": a["vid"], "cls": t, "subtler": t}
+        if a["kind"] == "type":
+            from world import C_OBJECT, C_TYPE
+
+            # type(value): `type` (or a metaclass, which has the same row in the issubclass table) for a class, an
+            # alias class (only below object) for a parametrised generic
+            c = ["cls", C_TYPE if a["t"][0] == "cls" else C_OBJECT]
+            return {"vid": a["vid"], "cls": c, "subtler": ["gen", C_TYPE, [w.tyj(a["t"])]]}
         raise ValueError(a)
+
+    def ann(t):
+        # an annotation goes through normalize_type: bare `type` is type[object] (layer B, C14_bare_type)
+        from world import C_TYPE
+
+        return ["gen", C_TYPE, [["cls", 0]]] if t == ["cls", C_TYPE] else w.tyj(t)
 
     defs = []
     for d in sc["defs"]:
-        defs.append({**d, "params": [{**p, "ty": w.tyj(p["ty"])} for p in d["params"]]})
+        defs.append({**d, "params": [{**p, "ty": ann(p["ty"])} for p in d["params"]]})
     return {
         "layer": "F",
         "hier": w.tables(),
